@@ -1,4 +1,5 @@
 import MaltModel.Proofs.FuncBasic
+import MaltModel.Proofs.FuncRestrict
 /-!
 The liveness-indexed forward simulation behind `control_flow_correct`:
 source `Malt.Sem.exec` on the erased program  ⟶  native target semantics `execN` on the functionalised program.
@@ -9,7 +10,9 @@ Four mutually dependent statements, proved together by one induction on the sour
 a `for` (`SimFor`).
 
 Relation: `Agree L σ σ'` — on the variables `L` live at the current point the target slot reads as the source
-binding, and the logs are equal.  Side invariant on the source state: `BoundSub σ D` — only variables in `D`
+binding, and the logs are equal.  Exceptional outcomes: `AgreeOutK` also demands agreement on what the exception
+context `K` says must be live for the exception that was raised (`K.get e`): the live-in of the handler that will
+catch it, or of the innermost enclosing `finally`; `with`/`try` are pass-through statements (same frame).  Side invariant on the source state: `BoundSub σ D` — only variables in `D`
 are bound (needed because `x = ag__.Undefined('x')` overwrites `x`: harmless only if `x` really is unbound).
 -/
 namespace Malt.Func
@@ -41,6 +44,130 @@ theorem BoundSub.set {σ : St} {D E : List Name} (h : BoundSub σ D) (x : Name) 
 theorem NJ.fnOut {o : Out} (h : NJ o) : fnOut o = o := by
   rcases h with rfl | ⟨e, rfl⟩ <;> rfl
 
+/-- Result agreement in an exception context: equal logs always; equal live-out variables after a normal
+completion; after an exception `e`, agreement on what its continuation (handler / `finally`) needs. -/
+def AgreeOutK (o : Out) (L : List Name) (K : ExcCtx) (σ₁ : St) (σ₁' : TSt) : Prop :=
+  σ₁'.log = σ₁.log ∧ (o = .normal → Agree L σ₁ σ₁') ∧ (∀ e, o = .exc e → Agree (K.get e) σ₁ σ₁')
+
+/-- User exceptions come from explicit `raise` statements. -/
+def RaisedIn (o : Out) (ts : List Nat) : Prop := ∀ t, o = .exc (.user t) → t ∈ ts
+
+/-! ### Exception contexts -/
+theorem get_impl (K : ExcCtx) {e : Exc} (h : IsImpl e) : K.get e = K.other := by
+  cases e <;> simp [IsImpl] at h <;> rfl
+
+theorem hsAll_mem {hs : List (Nat × List Name)} {h : Nat × List Name} (hm : h ∈ hs) : h.2 ⊆ hsAll hs := by
+  induction hs with
+  | nil => cases hm
+  | cons a r ih =>
+    obtain ⟨t, l⟩ := a
+    simp only [hsAll]
+    rcases List.mem_cons.mp hm with rfl | hm
+    · exact List.subset_append_left _ _
+    · exact fun x hx => List.mem_append.mpr (Or.inr (ih hm hx))
+
+theorem get_sub_all (K : ExcCtx) (e : Exc) : K.get e ⊆ K.all := by
+  cases e with
+  | user t =>
+    simp only [ExcCtx.get, ExcCtx.all]
+    cases hf : K.hs.find? (fun h => h.1 == t) with
+    | none => exact List.subset_append_left _ _
+    | some h => exact fun x hx => List.mem_append.mpr (Or.inr (hsAll_mem (List.mem_of_find?_eq_some hf) hx))
+  | _ => exact List.subset_append_left _ _
+
+theorem toFin_get (Fi : List Name) (e : Exc) : (ExcCtx.toFin Fi).get e = Fi := by
+  cases e <;> simp [ExcCtx.get, ExcCtx.toFin]
+
+/-- An error of expression evaluation, at a statement whose live-in contains `K.other`. -/
+theorem agree_err {K : ExcCtx} {L : List Name} {σ : St} {σ' : TSt} (h : Agree L σ σ') (hK : K.other ⊆ L)
+    {ex : Exc} (hi : IsImpl ex) : ∀ e, Out.exc ex = Out.exc e → Agree (K.get e) σ σ' := by
+  intro e he
+  cases he
+  rw [get_impl K hi]; exact h.mono hK
+
+theorem raisedIn_impl {ex : Exc} (hi : IsImpl ex) (ts : List Nat) : RaisedIn (.exc ex) ts := by
+  intro t ht
+  cases ht
+  exact absurd hi (by simp [IsImpl])
+
+theorem raisedIn_normal (ts : List Nat) : RaisedIn .normal ts := fun t ht => by cases ht
+
+theorem RaisedIn.mono {o : Out} {ts us : List Nat} (h : RaisedIn o ts) (hs : ts ⊆ us) : RaisedIn o us :=
+  fun t ht => hs (h t ht)
+
+/-! ### Handlers of a `try` -/
+def findA (hs : List (Nat × List AStmt)) (t : Nat) : Option (List AStmt) := (hs.find? (fun h => h.1 == t)).map (·.2)
+
+theorem findA_cons (t' : Nat) (b : List AStmt) (r : List (Nat × List AStmt)) (t : Nat) :
+    findA ((t', b) :: r) t = if t' == t then some b else findA r t := by
+  simp only [findA, List.find?]
+  cases t' == t <;> rfl
+
+theorem findHandler_erase : ∀ (hs : List (Nat × List AStmt)) (t : Nat),
+    findHandler (eraseH hs) (.user t) = (findA hs t).map eraseB
+  | [], t => by simp [eraseH, findHandler, findA]
+  | (t', b) :: r, t => by
+      have ih := findHandler_erase r t
+      rw [findA_cons]
+      simp only [eraseH, findHandler, List.find?] at ih ⊢
+      cases h : t' == t <;> simp [ih]
+
+theorem findHandlerT_func : ∀ (hs : List (Nat × List AStmt)) (t : Nat),
+    findHandlerT (funcH hs) (.user t) = (findA hs t).map funcB
+  | [], t => by simp [funcH, findHandlerT, findA]
+  | (t', b) :: r, t => by
+      have ih := findHandlerT_func r t
+      rw [findA_cons]
+      simp only [funcH, findHandlerT, List.find?] at ih ⊢
+      cases h : t' == t <;> simp [ih]
+
+theorem handlerIns_get (Fi Fx : List Name) : ∀ (hs : List (Nat × List AStmt)) (t : Nat),
+    (ExcCtx.mk (handlerIns Fi hs) Fx).get (.user t) = match findA hs t with | some b => blockIn b Fi | none => Fx
+  | [], t => by simp [handlerIns, ExcCtx.get, findA]
+  | (t', b) :: r, t => by
+      have ih := handlerIns_get Fi Fx r t
+      rw [findA_cons]
+      simp only [handlerIns, ExcCtx.get, List.find?] at ih ⊢
+      cases h : t' == t <;> simp [ih]
+
+theorem find_facts : ∀ (hs : List (Nat × List AStmt)) (t : Nat) (b : List AStmt), findA hs t = some b →
+    (∀ K O, LiveH K hs O → LiveB K b O) ∧ (DeclH hs → DeclB b) ∧ (∀ D, DefH D hs → DefB D b) ∧
+    (noRetH hs = true → noRetB b = true) ∧ raisesB b ⊆ raisesH hs ∧ asgB b ⊆ asgH hs
+  | [], t, b, h => by simp [findA] at h
+  | (t', b') :: r, t, b, h => by
+      rw [findA_cons] at h
+      cases ht : t' == t with
+      | true =>
+        simp only [ht, if_true, Option.some.injEq] at h; subst h
+        refine ⟨fun K O hl => ?_, fun hd => ?_, fun D hd => ?_, fun hn => ?_, ?_, ?_⟩
+        · simp only [LiveH] at hl; exact hl.1
+        · simp only [DeclH] at hd; exact hd.1
+        · simp only [DefH] at hd; exact hd.1
+        · simp only [noRetH, Bool.and_eq_true] at hn; exact hn.1
+        · simp only [raisesH]; exact List.subset_append_left _ _
+        · simp only [asgH]; exact List.subset_append_left _ _
+      | false =>
+        simp only [ht, Bool.false_eq_true, if_false] at h
+        obtain ⟨h1, h2, h3, h4, h5, h6⟩ := find_facts r t b h
+        refine ⟨fun K O hl => ?_, fun hd => ?_, fun D hd => ?_, fun hn => ?_, ?_, ?_⟩
+        · simp only [LiveH] at hl; exact h1 K O hl.2
+        · simp only [DeclH] at hd; exact h2 hd.2
+        · simp only [DefH] at hd; exact h3 D hd.2
+        · simp only [noRetH, Bool.and_eq_true] at hn; exact h4 hn.2
+        · simp only [raisesH]; exact fun x hx => List.mem_append.mpr (Or.inr (h5 hx))
+        · simp only [asgH]; exact fun x hx => List.mem_append.mpr (Or.inr (h6 hx))
+
+theorem afterHN_mono (X : Ext) {n m : Nat} (hnm : n ≤ m) {hs : List (Nat × TBlock)} {r r' : Out × TSt}
+    (h : afterHN X n hs r = some r') : afterHN X m hs r = some r' := by
+  obtain ⟨o, σ'⟩ := r
+  cases o with
+  | exc ex =>
+    simp only [afterHN] at h ⊢
+    cases hf : findHandlerT hs ex with
+    | none => rw [hf] at h; exact h
+    | some hb => rw [hf] at h; simp only at h ⊢; exact execNB_mono X h hnm
+  | _ => simpa [afterHN] using h
+
 theorem noRet_retTopS (s : AStmt) (h : noRetS s = true) : retTopS s = true := by
   cases s <;> simp_all [noRetS, retTopS]
 
@@ -52,33 +179,33 @@ theorem noRet_retTopB : ∀ (b : ABlock), noRetB b = true → retTopB b = true
       exact ⟨noRet_retTopS s h.1, noRet_retTopB r h.2⟩
 
 def SimS (X : Ext) (n : Nat) : Prop :=
-  ∀ (s : AStmt) (D : List Name) (σ : St) (σ' : TSt) (o : Out) (σ₁ : St),
-    LiveS s → DeclS s → DefS D s → retTopS s = true →
+  ∀ (s : AStmt) (K : ExcCtx) (D : List Name) (σ : St) (σ' : TSt) (o : Out) (σ₁ : St),
+    LiveS K s → DeclS s → DefS D s → retTopS s = true →
     Agree s.info.liveIn σ σ' → BoundSub σ D → exec X n (eraseS s) σ = some (o, σ₁) →
-    (∃ m σ₁', execNB X m (funcS s) σ' = some (o, σ₁') ∧ AgreeOut o s.info.liveOut σ₁ σ₁') ∧
-    (noRetS s = true → NJ o) ∧ BoundSub σ₁ (D ++ asgS s)
+    (∃ m σ₁', execNB X m (funcS s) σ' = some (o, σ₁') ∧ AgreeOutK o s.info.liveOut K σ₁ σ₁') ∧
+    (noRetS s = true → NJ o) ∧ RaisedIn o (raisesS s) ∧ BoundSub σ₁ (D ++ asgS s)
 
 def SimB (X : Ext) (n : Nat) : Prop :=
-  ∀ (b : ABlock) (D O : List Name) (σ : St) (σ' : TSt) (o : Out) (σ₁ : St),
-    LiveB b O → DeclB b → DefB D b → retTopB b = true →
+  ∀ (b : ABlock) (K : ExcCtx) (D O : List Name) (σ : St) (σ' : TSt) (o : Out) (σ₁ : St),
+    LiveB K b O → DeclB b → DefB D b → retTopB b = true →
     Agree (blockIn b O) σ σ' → BoundSub σ D → execB X n (eraseB b) σ = some (o, σ₁) →
-    (∃ m σ₁', execNB X m (funcB b) σ' = some (o, σ₁') ∧ AgreeOut o O σ₁ σ₁') ∧
-    (noRetB b = true → NJ o) ∧ BoundSub σ₁ (D ++ asgB b)
+    (∃ m σ₁', execNB X m (funcB b) σ' = some (o, σ₁') ∧ AgreeOutK o O K σ₁ σ₁') ∧
+    (noRetB b = true → NJ o) ∧ RaisedIn o (raisesB b) ∧ BoundSub σ₁ (D ++ asgB b)
 
 def SimW (X : Ext) (n : Nat) : Prop :=
-  ∀ (i : Info) (c : Expr) (b : ABlock) (D : List Name) (σ : St) (σ' : TSt) (o : Out) (σ₁ : St),
-    LiveS (.whileS i c b) → DeclS (.whileS i c b) → DefB D b → asgB b ⊆ D → noRetB b = true →
+  ∀ (i : Info) (c : Expr) (b : ABlock) (K : ExcCtx) (D : List Name) (σ : St) (σ' : TSt) (o : Out) (σ₁ : St),
+    LiveS K (.whileS i c b) → DeclS (.whileS i c b) → DefB D b → asgB b ⊆ D → noRetB b = true →
     Agree i.liveIn σ σ' → BoundSub σ D → exec X n (.whileS c (eraseB b)) σ = some (o, σ₁) →
-    (∃ m σ₁', execN X m (.whileF c (funcB b) i.declared) σ' = some (o, σ₁') ∧ AgreeOut o i.liveOut σ₁ σ₁') ∧
-    NJ o ∧ BoundSub σ₁ D
+    (∃ m σ₁', execN X m (.whileF c (funcB b) i.declared) σ' = some (o, σ₁') ∧ AgreeOutK o i.liveOut K σ₁ σ₁') ∧
+    NJ o ∧ RaisedIn o (raisesB b) ∧ BoundSub σ₁ D
 
 def SimFor (X : Ext) (n : Nat) : Prop :=
-  ∀ (i : Info) (x : Name) (it : Expr) (extra : Option Expr) (b : ABlock) (D : List Name) (items : List Val)
+  ∀ (i : Info) (x : Name) (it : Expr) (extra : Option Expr) (b : ABlock) (K : ExcCtx) (D : List Name) (items : List Val)
     (σ : St) (σ' : TSt) (o : Out) (σ₁ : St),
-    LiveS (.forS i x it extra b) → DeclS (.forS i x it extra b) → DefB D b → (x :: asgB b) ⊆ D → noRetB b = true →
+    LiveS K (.forS i x it extra b) → DeclS (.forS i x it extra b) → DefB D b → (x :: asgB b) ⊆ D → noRetB b = true →
     Agree i.liveIn σ σ' → BoundSub σ D → execFor X n x extra (eraseB b) items σ = some (o, σ₁) →
-    (∃ m σ₁', execNFor X m x extra (funcB b) i.declared items σ' = some (o, σ₁') ∧ AgreeOut o i.liveOut σ₁ σ₁') ∧
-    NJ o ∧ BoundSub σ₁ D
+    (∃ m σ₁', execNFor X m x extra (funcB b) i.declared items σ' = some (o, σ₁') ∧ AgreeOutK o i.liveOut K σ₁ σ₁') ∧
+    NJ o ∧ RaisedIn o (raisesB b) ∧ BoundSub σ₁ D
 
 /-! ### The key fact: what is not declared is frame-local **and dead** -/
 theorem not_live_of_not_declared {i : Info} {modified : List Name} {x : Name}
@@ -121,23 +248,160 @@ theorem frame_out {o : Out} {O L : List Name} {σ₂ : St} {σ' τ : TSt} (h : A
     withFrame L σ' (some (o, τ)) = some (o, restore L σ' τ) ∧ AgreeOut o O σ₂ (restore L σ' τ) := by
   refine ⟨by simp [withFrame, hnj.fnOut], h.1, fun ho => (h.2 ho).restore L σ' hL⟩
 
+/-- Returning from a generated function in an exception context: frame-local slots are restored; nothing that is
+live afterwards — normally or for the handler / `finally` of the raised exception — is affected. -/
+theorem frame_outK {o : Out} {O L : List Name} {K : ExcCtx} {σ₂ : St} {σ' τ : TSt} (h : AgreeOutK o O K σ₂ τ)
+    (hL : ∀ x ∈ L, x ∉ O) (hLK : ∀ e, o = .exc e → ∀ x ∈ L, x ∉ K.get e) (hnj : NJ o) :
+    withFrame L σ' (some (o, τ)) = some (o, restore L σ' τ) ∧ AgreeOutK o O K σ₂ (restore L σ' τ) := by
+  refine ⟨by simp [withFrame, hnj.fnOut], h.1, fun ho => (h.2.1 ho).restore L σ' hL,
+    fun e he => (h.2.2 e he).restore L σ' (hLK e he)⟩
+
+/-- The frame-local names of a functionalised statement are outside everything an exception leaving it needs. -/
+theorem locals_exc {K : ExcCtx} {i : Info} {L : List Name} {ts : List Nat} {o : Out}
+    (hloc : ∀ x ∈ L, x ∉ i.liveIn ∧ x ∉ i.liveOut) (hKo : K.other ⊆ i.liveIn) (hro : raiseOK K i ts)
+    (hr : RaisedIn o ts) : ∀ e, o = .exc e → ∀ x ∈ L, x ∉ K.get e := by
+  intro e he x hx hin
+  cases e with
+  | user t =>
+    have := hro t (hr t he) hin
+    rcases List.mem_append.mp this with h | h
+    · exact (hloc x hx).1 h
+    · exact (hloc x hx).2 h
+  | nameError y => exact (hloc x hx).1 (hKo (by simpa [ExcCtx.get] using hin))
+  | typeError => exact (hloc x hx).1 (hKo (by simpa [ExcCtx.get] using hin))
+
 /-- Calling a generated body function (shared by `if`, `while`). -/
-theorem body_call (X : Ext) (n : Nat) (hB : SimB X n) (t : ABlock) (O M D L : List Name)
+theorem body_call (X : Ext) (n : Nat) (hB : SimB X n) (t : ABlock) (K : ExcCtx) (O M D L : List Name)
     (σ : St) (σ' : TSt) (o : Out) (σ₂ : St)
-    (hlive : LiveB t O) (hdecl : DeclB t) (hdef : DefB D t) (hnr : noRetB t = true)
+    (hlive : LiveB K t O) (hdecl : DeclB t) (hdef : DefB D t) (hnr : noRetB t = true)
     (hag : Agree M σ σ') (hM : blockIn t O ⊆ M) (hL1 : ∀ x ∈ L, x ∉ blockIn t O) (hL2 : ∀ x ∈ L, x ∉ O)
+    (hLK : ∀ o, RaisedIn o (raisesB t) → ∀ e, o = .exc e → ∀ x ∈ L, x ∉ K.get e)
     (hb : BoundSub σ D) (h : execB X n (eraseB t) σ = some (o, σ₂)) :
-    (∃ m σ₂', withFrame L σ' (execNB X m (funcB t) (mask L σ')) = some (o, σ₂') ∧ AgreeOut o O σ₂ σ₂') ∧
-    NJ o ∧ BoundSub σ₂ (D ++ asgB t) := by
+    (∃ m σ₂', withFrame L σ' (execNB X m (funcB t) (mask L σ')) = some (o, σ₂') ∧ AgreeOutK o O K σ₂ σ₂') ∧
+    NJ o ∧ RaisedIn o (raisesB t) ∧ BoundSub σ₂ (D ++ asgB t) := by
   have hag' : Agree (blockIn t O) σ (mask L σ') := (hag.mono hM).mask L hL1
-  obtain ⟨⟨m, τ, hx, hout⟩, hnj, hbd⟩ := hB t D O σ (mask L σ') o σ₂ hlive hdecl hdef (noRet_retTopB t hnr) hag' hb h
+  obtain ⟨⟨m, τ, hx, hout⟩, hnj, hr, hbd⟩ := hB t K D O σ (mask L σ') o σ₂ hlive hdecl hdef (noRet_retTopB t hnr) hag' hb h
   have hnj' := hnj hnr
-  obtain ⟨hw, hout'⟩ := frame_out (σ' := σ') hout hL2 hnj'
-  exact ⟨⟨m, _, by rw [hx]; exact hw, hout'⟩, hnj', hbd⟩
+  obtain ⟨hw, hout'⟩ := frame_outK (σ' := σ') hout hL2 (hLK o hr) hnj'
+  exact ⟨⟨m, _, by rw [hx]; exact hw, hout'⟩, hnj', hr, hbd⟩
+
+theorem finishN_mono (X : Ext) {n m : Nat} (hnm : n ≤ m) {fin : TBlock} {r r' : Out × TSt}
+    (h : finishN X n fin r = some r') : finishN X m fin r = some r' := by
+  obtain ⟨o, τ⟩ := r
+  obtain ⟨of, σf, hfin, hcase⟩ := finishN_some h
+  have hfin' := execNB_mono X hfin hnm
+  rcases hcase with ⟨rfl, rfl⟩ | ⟨hne, rfl⟩
+  · exact finishN_of_normal hfin'
+  · exact finishN_of_abrupt hfin' hne
+
+/-- The handler step of a `try`: whatever the body ended with, source and target take the same handler (or none);
+afterwards they agree on the live-in `Fi` of the `finally` block (normal completion) or on the part `Fx` of it
+that a `finally` entered with a pending exception needs. -/
+theorem handler_step (X : Ext) (n : Nat) (hB : SimB X n) (hs : List (Nat × List AStmt)) (Fi Fx D' : List Name)
+    (ob : Out) (σb : St) (τb : TSt) (ra : Out × St)
+    (hlh : LiveH (ExcCtx.toFin Fx) hs Fi) (hdh : DeclH hs) (hfh : DefH D' hs) (hnh : noRetH hs = true)
+    (hnj : NJ ob) (hout : AgreeOutK ob Fi { hs := handlerIns Fi hs, other := Fx } σb τb) (hbd : BoundSub σb D')
+    (ha : afterHS X n (eraseH hs) (ob, σb) = some ra) :
+    ∃ m2 τ2, afterHN X m2 (funcH hs) (ob, τb) = some (ra.1, τ2) ∧ τ2.log = ra.2.log ∧
+      (ra.1 = .normal → Agree Fi ra.2 τ2) ∧ (∀ e, ra.1 = .exc e → Agree Fx ra.2 τ2) ∧ NJ ra.1 ∧
+      (∀ t, ra.1 = .exc (.user t) → ob = .exc (.user t) ∨ t ∈ raisesH hs) ∧ BoundSub ra.2 (D' ++ asgH hs) := by
+  rcases hnj with rfl | ⟨ex, rfl⟩
+  · simp only [afterHS, Option.some.injEq] at ha; subst ha
+    exact ⟨1, τb, by simp [afterHN], hout.1, fun _ => hout.2.1 rfl, (fun e he => by cases he), Or.inl rfl,
+      (fun t ht => by cases ht), hbd.mono (List.subset_append_left _ _)⟩
+  · have hagE := hout.2.2 ex rfl
+    -- no handler: the exception stays pending
+    have pending : findHandler (eraseH hs) ex = none → findHandlerT (funcH hs) ex = none →
+        ({ hs := handlerIns Fi hs, other := Fx } : ExcCtx).get ex = Fx →
+        ∃ m2 τ2, afterHN X m2 (funcH hs) (.exc ex, τb) = some (ra.1, τ2) ∧ τ2.log = ra.2.log ∧
+          (ra.1 = .normal → Agree Fi ra.2 τ2) ∧ (∀ e, ra.1 = .exc e → Agree Fx ra.2 τ2) ∧ NJ ra.1 ∧
+          (∀ t, ra.1 = .exc (.user t) → Out.exc ex = .exc (.user t) ∨ t ∈ raisesH hs) ∧ BoundSub ra.2 (D' ++ asgH hs) := by
+      intro h1 h2 h3
+      simp only [afterHS, h1, Option.some.injEq] at ha; subst ha
+      rw [h3] at hagE
+      exact ⟨1, τb, by simp [afterHN, h2], hout.1, (fun hh => by cases hh), fun _ _ => hagE, Or.inr ⟨ex, rfl⟩,
+        fun t ht => Or.inl ht, hbd.mono (List.subset_append_left _ _)⟩
+    cases ex with
+    | nameError y => exact pending (by simp [findHandler]) (by simp [findHandlerT]) (by simp [ExcCtx.get])
+    | typeError => exact pending (by simp [findHandler]) (by simp [findHandlerT]) (by simp [ExcCtx.get])
+    | user t =>
+      have hget := handlerIns_get Fi Fx hs t
+      cases hfa : findA hs t with
+      | none =>
+        rw [hfa] at hget
+        exact pending (by rw [findHandler_erase, hfa]; rfl) (by rw [findHandlerT_func, hfa]; rfl) hget
+      | some hbk =>
+        rw [hfa] at hget; simp only at hget
+        rw [hget] at hagE
+        obtain ⟨f1, f2, f3, f4, f5, f6⟩ := find_facts hs t hbk hfa
+        have hfe : findHandler (eraseH hs) (.user t) = some (eraseB hbk) := by rw [findHandler_erase, hfa]; rfl
+        have hft : findHandlerT (funcH hs) (.user t) = some (funcB hbk) := by rw [findHandlerT_func, hfa]; rfl
+        simp only [afterHS, hfe] at ha
+        obtain ⟨oh, σh⟩ := ra
+        obtain ⟨⟨m2, τh, hx2, hout2⟩, hnj2, hr2, hbd2⟩ := hB hbk (ExcCtx.toFin Fx) D' Fi σb τb oh σh (f1 _ _ hlh) (f2 hdh) (f3 _ hfh)
+          (noRet_retTopB hbk (f4 hnh)) hagE hbd ha
+        refine ⟨m2, τh, by simp only [afterHN, hft]; exact hx2, hout2.1, hout2.2.1, fun e he => ?_, hnj2 (f4 hnh),
+          fun t' ht' => Or.inr (f5 (hr2 t' ht')),
+          hbd2.mono (by
+            intro y hy
+            rcases List.mem_append.mp hy with hy | hy
+            · exact List.mem_append.mpr (Or.inl hy)
+            · exact List.mem_append.mpr (Or.inr (f6 hy)))⟩
+        have := hout2.2.2 e he
+        rwa [toFin_get] at this
+
+/-- The `finally` step of a `try`.  With a pending exception the block is simulated under the annotation restricted
+to what it reads and what `K` needs (`FuncRestrict`). -/
+theorem finally_step (X : Ext) (n : Nat) (hB : SimB X n) (f : ABlock) (K : ExcCtx) (O D'' : List Name)
+    (o2 : Out) (σ2 : St) (τ2 : TSt) (r : Out × St)
+    (hlf : LiveB K f (O ++ K.all)) (hdf : DeclB f) (hff : DefB D'' f) (hnf : noRetB f = true)
+    (hagN : o2 = .normal → Agree (blockIn f (O ++ K.all)) σ2 τ2)
+    (hagX : ∀ e, o2 = .exc e → Agree (finExcIn K f O) σ2 τ2)
+    (hnj2 : NJ o2) (hbd : BoundSub σ2 D'')
+    (hfin : finishS X n (eraseB f) (o2, σ2) = some r) :
+    ∃ m3 τ3, finishN X m3 (funcB f) (o2, τ2) = some (r.1, τ3) ∧ AgreeOutK r.1 O K r.2 τ3 ∧ NJ r.1 ∧
+      (∀ t, r.1 = .exc (.user t) → o2 = .exc (.user t) ∨ t ∈ raisesB f) ∧ BoundSub r.2 (D'' ++ asgB f) := by
+  obtain ⟨of, σf, hrun, hcase⟩ := finishS_some hfin
+  rcases hnj2 with rfl | ⟨e2, rfl⟩
+  · -- normal entry
+    obtain ⟨⟨m3, τf, hx3, hout3⟩, hnj3, hr3, hbd3⟩ := hB f K D'' (O ++ K.all) σ2 τ2 of σf hlf hdf hff (noRet_retTopB f hnf)
+      (hagN rfl) hbd hrun
+    rcases hcase with ⟨rfl, rfl⟩ | ⟨hne, rfl⟩
+    · exact ⟨m3, τf, finishN_of_normal hx3,
+        ⟨hout3.1, fun _ => (hout3.2.1 rfl).mono (List.subset_append_left _ _), fun e he => by cases he⟩, Or.inl rfl,
+        fun t ht => Or.inl ht, hbd3⟩
+    · exact ⟨m3, τf, finishN_of_abrupt hx3 hne, ⟨hout3.1, fun hh => absurd hh hne, hout3.2.2⟩, hnj3 hnf,
+        fun t ht => Or.inr (hr3 t ht), hbd3⟩
+  · -- entry with a pending exception: the restricted annotation
+    let S := readsB f ++ K.all
+    have hKS : ∀ e, K.get e ⊆ S := fun e x hx => List.mem_append.mpr (Or.inr (get_sub_all K e hx))
+    have hlr := live_restrictB S K f _ hlf (List.subset_append_left _ _)
+    have hagr : Agree (blockIn (restrictB S f) (fl S (O ++ K.all))) σ2 τ2 := by
+      rw [blockIn_restrict]; exact hagX e2 rfl
+    have hrun' : execB X n (eraseB (restrictB S f)) σ2 = some (of, σf) := by rw [erase_restrictB]; exact hrun
+    obtain ⟨⟨m3, τf, hx3, hout3⟩, hnj3, hr3, hbd3⟩ := hB (restrictB S f) (K.filt S) D'' (fl S (O ++ K.all)) σ2 τ2 of σf hlr
+      (decl_restrictB S f hdf) (def_restrictB S D'' f hff) (noRet_retTopB _ (by rw [noRet_restrictB]; exact hnf)) hagr hbd hrun'
+    rw [func_restrictB] at hx3
+    rw [asg_restrictB] at hbd3
+    rw [raises_restrictB] at hr3
+    rw [noRet_restrictB] at hnj3
+    have hexc : ∀ e', of = .exc e' → Agree (K.get e') σf τf := by
+      intro e' he'
+      have := hout3.2.2 e' he'
+      rw [get_filt] at this
+      exact this.mono (fun x hx => mem_fl.mpr ⟨hx, hKS e' hx⟩)
+    rcases hcase with ⟨rfl, rfl⟩ | ⟨hne, rfl⟩
+    · refine ⟨m3, τf, finishN_of_normal hx3, ⟨hout3.1, (fun hh => by cases hh), fun e he => ?_⟩, Or.inr ⟨e2, rfl⟩,
+        fun t ht => Or.inl ht, hbd3⟩
+      cases he
+      exact (hout3.2.1 rfl).mono (fun x hx => mem_fl.mpr
+        ⟨List.mem_append.mpr (Or.inr (get_sub_all K e2 hx)), hKS e2 hx⟩)
+    · exact ⟨m3, τf, finishN_of_abrupt hx3 hne, ⟨hout3.1, fun hh => absurd hh hne, hexc⟩, hnj3 hnf,
+        fun t ht => Or.inr (hr3 t ht), hbd3⟩
 
 /-! ### Statements -/
 theorem simS_step (X : Ext) (n : Nat) (hB : SimB X n) (hW : SimW X (n+1)) (hF : SimFor X n) : SimS X (n+1) := by
-  intro s D σ σ' o σ₁ hlive hdecl hdef hjump hag hb h
+  intro s K D σ σ' o σ₁ hlive hdecl hdef hjump hag hb h
   cases s with
   | assign i x e =>
     simp only [LiveS] at hlive
@@ -146,19 +410,20 @@ theorem simS_step (X : Ext) (n : Nat) (hB : SimB X n) (hW : SimW X (n+1)) (hF : 
     rcases he : evalE X e σ with ⟨r, τ⟩
     rw [he] at h
     obtain ⟨τ', hT, henv', henv, hlog⟩ := evalT_sim X e hag hlive.1 he
+    have hag1 : Agree i.liveIn τ τ' := hag.of_env henv henv' hlog
     cases r with
     | error ex =>
       simp only [Option.some.injEq, Prod.mk.injEq] at h; obtain ⟨rfl, rfl⟩ := h
-      refine ⟨⟨2, τ', ?_, hlog, fun hh => by cases hh⟩, fun _ => Or.inr ⟨ex, rfl⟩, ?_⟩
+      have hi : IsImpl ex := evalE_impl X e σ ex (by rw [he])
+      refine ⟨⟨2, τ', ?_, hlog, (fun hh => by cases hh), agree_err hag1 hlive.2.2 hi⟩, fun _ => Or.inr ⟨ex, rfl⟩,
+        raisedIn_impl hi _, ?_⟩
       · simp [funcS, execNB, execN, hT]
       · exact (hb.of_env henv).mono (List.subset_append_left _ _)
     | ok v =>
       simp only [Option.some.injEq, Prod.mk.injEq] at h; obtain ⟨rfl, rfl⟩ := h
-      have hag1 : Agree i.liveIn τ τ' := hag.of_env henv henv' hlog
-      refine ⟨⟨2, τ'.set x v, ?_, ?_, fun _ => ?_⟩, fun _ => Or.inl rfl, ?_⟩
+      refine ⟨⟨2, τ'.set x v, ?_, hlog, fun _ => ?_, fun e he => by cases he⟩, fun _ => Or.inl rfl, raisedIn_normal _, ?_⟩
       · simp [funcS, execNB, execN, hT]
-      · exact hlog
-      · refine hag1.set x v (fun y hy hyx => hlive.2 (List.mem_filter.mpr ⟨hy, by simpa using hyx⟩))
+      · refine hag1.set x v (fun y hy hyx => hlive.2.1 (List.mem_filter.mpr ⟨hy, by simpa using hyx⟩))
       · exact (hb.of_env henv).set x v (List.subset_append_left _ _) (by simp [asgS])
   | expr i e =>
     simp only [LiveS] at hlive
@@ -171,46 +436,59 @@ theorem simS_step (X : Ext) (n : Nat) (hB : SimB X n) (hW : SimW X (n+1)) (hF : 
     cases r with
     | error ex =>
       simp only [Option.some.injEq, Prod.mk.injEq] at h; obtain ⟨rfl, rfl⟩ := h
-      refine ⟨⟨2, τ', ?_, hlog, fun hh => by cases hh⟩, fun _ => Or.inr ⟨ex, rfl⟩, ?_⟩
+      have hi : IsImpl ex := evalE_impl X e σ ex (by rw [he])
+      refine ⟨⟨2, τ', ?_, hlog, (fun hh => by cases hh), agree_err hag1 hlive.2.2 hi⟩, fun _ => Or.inr ⟨ex, rfl⟩,
+        raisedIn_impl hi _, ?_⟩
       · simp [funcS, execNB, execN, hT]
       · exact (hb.of_env henv).mono (List.subset_append_left _ _)
     | ok v =>
       simp only [Option.some.injEq, Prod.mk.injEq] at h; obtain ⟨rfl, rfl⟩ := h
-      refine ⟨⟨2, τ', ?_, hlog, fun _ => hag1.mono hlive.2⟩, fun _ => Or.inl rfl, ?_⟩
+      refine ⟨⟨2, τ', ?_, hlog, fun _ => hag1.mono hlive.2.1, fun e he => by cases he⟩, fun _ => Or.inl rfl, raisedIn_normal _, ?_⟩
       · simp [funcS, execNB, execN, hT]
       · exact (hb.of_env henv).mono (List.subset_append_left _ _)
   | pass i =>
     simp only [LiveS] at hlive
     simp only [AStmt.info] at hag ⊢
     simp only [eraseS, exec, Option.some.injEq, Prod.mk.injEq] at h; obtain ⟨rfl, rfl⟩ := h
-    refine ⟨⟨2, σ', by simp [funcS, execNB, execN], hag.2, fun _ => hag.mono hlive⟩, fun _ => Or.inl rfl, ?_⟩
+    refine ⟨⟨2, σ', by simp [funcS, execNB, execN], hag.2, fun _ => hag.mono hlive, fun e he => by cases he⟩,
+      fun _ => Or.inl rfl, raisedIn_normal _, ?_⟩
     exact hb.mono (List.subset_append_left _ _)
   | raise i t =>
+    simp only [LiveS] at hlive
+    simp only [AStmt.info] at hag ⊢
     simp only [eraseS, exec, Option.some.injEq, Prod.mk.injEq] at h; obtain ⟨rfl, rfl⟩ := h
-    refine ⟨⟨2, σ', by simp [funcS, execNB, execN], hag.2, fun hh => by cases hh⟩, fun _ => Or.inr ⟨_, rfl⟩, ?_⟩
-    exact hb.mono (List.subset_append_left _ _)
+    refine ⟨⟨2, σ', by simp [funcS, execNB, execN], hag.2, (fun hh => by cases hh), fun e he => ?_⟩,
+      fun _ => Or.inr ⟨_, rfl⟩, fun t' ht' => ?_, ?_⟩
+    · cases he; exact hag.mono hlive
+    · cases ht'; simp [raisesS]
+    · exact hb.mono (List.subset_append_left _ _)
   | ret i e =>
     simp only [LiveS] at hlive
     simp only [AStmt.info] at hag ⊢
     cases e with
     | none =>
       simp only [eraseS, exec, Option.some.injEq, Prod.mk.injEq] at h; obtain ⟨rfl, rfl⟩ := h
-      refine ⟨⟨2, σ', by simp [funcS, execNB, execN], hag.2, fun hh => by cases hh⟩, fun hh => by simp [noRetS] at hh, ?_⟩
+      refine ⟨⟨2, σ', by simp [funcS, execNB, execN], hag.2, (fun hh => by cases hh), fun e he => by cases he⟩,
+        (fun hh => by simp [noRetS] at hh), (fun t ht => by cases ht), ?_⟩
       exact hb.mono (List.subset_append_left _ _)
     | some e =>
       simp only [eraseS, exec] at h
       rcases he : evalE X e σ with ⟨r, τ⟩
       rw [he] at h
-      obtain ⟨τ', hT, henv', henv, hlog⟩ := evalT_sim X e hag hlive he
+      obtain ⟨τ', hT, henv', henv, hlog⟩ := evalT_sim X e hag hlive.1 he
+      have hag1 : Agree i.liveIn τ τ' := hag.of_env henv henv' hlog
       cases r with
       | error ex =>
         simp only [Option.some.injEq, Prod.mk.injEq] at h; obtain ⟨rfl, rfl⟩ := h
-        refine ⟨⟨2, τ', ?_, hlog, fun hh => by cases hh⟩, fun hh => by simp [noRetS] at hh, ?_⟩
+        have hi : IsImpl ex := evalE_impl X e σ ex (by rw [he])
+        refine ⟨⟨2, τ', ?_, hlog, (fun hh => by cases hh), agree_err hag1 hlive.2 hi⟩, (fun hh => by simp [noRetS] at hh),
+          raisedIn_impl hi _, ?_⟩
         · simp [funcS, execNB, execN, hT]
         · exact (hb.of_env henv).mono (List.subset_append_left _ _)
       | ok v =>
         simp only [Option.some.injEq, Prod.mk.injEq] at h; obtain ⟨rfl, rfl⟩ := h
-        refine ⟨⟨2, τ', ?_, hlog, fun hh => by cases hh⟩, fun hh => by simp [noRetS] at hh, ?_⟩
+        refine ⟨⟨2, τ', ?_, hlog, (fun hh => by cases hh), fun e he => by cases he⟩, (fun hh => by simp [noRetS] at hh),
+          (fun t ht => by cases ht), ?_⟩
         · simp [funcS, execNB, execN, hT]
         · exact (hb.of_env henv).mono (List.subset_append_left _ _)
   | ifS i c t e =>
@@ -219,7 +497,7 @@ theorem simS_step (X : Ext) (n : Nat) (hB : SimB X n) (hW : SimW X (n+1)) (hF : 
     simp only [DefS] at hdef
     simp only [retTopS, Bool.and_eq_true] at hjump
     simp only [AStmt.info] at hag ⊢
-    obtain ⟨hvc, hint, hine, hlt, hle⟩ := hlive
+    obtain ⟨hvc, hint, hine, hlt, hle, hKo, hro⟩ := hlive
     obtain ⟨hdd, hund, hdt, hde⟩ := hdecl
     obtain ⟨hDsub, hudisj, hdft, hdfe⟩ := hdef
     -- the Undefined pre-assignments only touch really-unbound variables
@@ -238,23 +516,27 @@ theorem simS_step (X : Ext) (n : Nat) (hB : SimB X n) (hW : SimW X (n+1)) (hF : 
     cases r with
     | error ex =>
       simp only [Option.some.injEq, Prod.mk.injEq] at h; obtain ⟨rfl, rfl⟩ := h
+      have hi : IsImpl ex := evalE_impl X c σ ex (by rw [he])
       have hx : execN X 1 (.ifF c (funcB t) (funcB e) i.declared i.nouts) (undefAll i.undefined σ') = some (.exc ex, τ') := by
         simp [execN, hT]
       obtain ⟨m', hm'⟩ := execNB_undefs X i.undefined σ' _ _ _ (execNB_single X hx)
-      refine ⟨⟨m', τ', by simpa [funcS] using hm', hlog, fun hh => by cases hh⟩, fun _ => Or.inr ⟨ex, rfl⟩, ?_⟩
+      refine ⟨⟨m', τ', by simpa [funcS] using hm', hlog, (fun hh => by cases hh), agree_err hag1 hKo hi⟩,
+        fun _ => Or.inr ⟨ex, rfl⟩, raisedIn_impl hi _, ?_⟩
       exact hb1.mono (List.subset_append_left _ _)
     | ok v =>
       simp only at h
       by_cases hv : truthy v = true
       · rw [if_pos hv] at h
         have hloc := locals_dead (i := i) (body := t) (List.subset_append_left _ _) hdd hdt
-        obtain ⟨⟨m, σ₂', hx, hout⟩, hnj, hbd⟩ := body_call X n hB t i.liveOut i.liveIn D
+        obtain ⟨⟨m, σ₂', hx, hout⟩, hnj, hr, hbd⟩ := body_call X n hB t K i.liveOut i.liveIn D
           (localsOf (funcB t) i.declared) τ τ' o σ₁ hlt hdt hdft hjump.1 hag1 hint
-          (fun x hx hin => (hloc x hx).1 (hint hin)) (fun x hx => (hloc x hx).2) hb1 h
+          (fun x hx hin => (hloc x hx).1 (hint hin)) (fun x hx => (hloc x hx).2)
+          (fun o' hr' => locals_exc hloc hKo hro (hr'.mono (List.subset_append_left _ _))) hb1 h
         have hx' : execN X (m+1) (.ifF c (funcB t) (funcB e) i.declared i.nouts) (undefAll i.undefined σ') = some (o, σ₂') := by
           simp only [execN, hT, hv, if_true]; exact hx
         obtain ⟨m', hm'⟩ := execNB_undefs X i.undefined σ' _ _ _ (execNB_single X hx')
-        refine ⟨⟨m', σ₂', by simpa [funcS] using hm', hout⟩, fun _ => hnj, ?_⟩
+        refine ⟨⟨m', σ₂', by simpa [funcS] using hm', hout⟩, fun _ => hnj,
+          by simp only [raisesS]; exact hr.mono (List.subset_append_left _ _), ?_⟩
         exact hbd.mono (by
           intro y hy; simp only [asgS]
           rcases List.mem_append.mp hy with hy | hy
@@ -262,13 +544,15 @@ theorem simS_step (X : Ext) (n : Nat) (hB : SimB X n) (hW : SimW X (n+1)) (hF : 
           · exact List.mem_append.mpr (Or.inr (List.mem_append.mpr (Or.inl hy))))
       · rw [if_neg hv] at h
         have hloc := locals_dead (i := i) (body := e) (List.subset_append_right _ _) hdd hde
-        obtain ⟨⟨m, σ₂', hx, hout⟩, hnj, hbd⟩ := body_call X n hB e i.liveOut i.liveIn D
+        obtain ⟨⟨m, σ₂', hx, hout⟩, hnj, hr, hbd⟩ := body_call X n hB e K i.liveOut i.liveIn D
           (localsOf (funcB e) i.declared) τ τ' o σ₁ hle hde hdfe hjump.2 hag1 hine
-          (fun x hx hin => (hloc x hx).1 (hine hin)) (fun x hx => (hloc x hx).2) hb1 h
+          (fun x hx hin => (hloc x hx).1 (hine hin)) (fun x hx => (hloc x hx).2)
+          (fun o' hr' => locals_exc hloc hKo hro (hr'.mono (List.subset_append_right _ _))) hb1 h
         have hx' : execN X (m+1) (.ifF c (funcB t) (funcB e) i.declared i.nouts) (undefAll i.undefined σ') = some (o, σ₂') := by
           simp only [execN, hT, hv]; exact hx
         obtain ⟨m', hm'⟩ := execNB_undefs X i.undefined σ' _ _ _ (execNB_single X hx')
-        refine ⟨⟨m', σ₂', by simpa [funcS] using hm', hout⟩, fun _ => hnj, ?_⟩
+        refine ⟨⟨m', σ₂', by simpa [funcS] using hm', hout⟩, fun _ => hnj,
+          by simp only [raisesS]; exact hr.mono (List.subset_append_right _ _), ?_⟩
         exact hbd.mono (by
           intro y hy; simp only [asgS]
           rcases List.mem_append.mp hy with hy | hy
@@ -289,10 +573,10 @@ theorem simS_step (X : Ext) (n : Nat) (hB : SimB X n) (hW : SimW X (n+1)) (hF : 
       | some w => exact absurd (hDsub (hb u (by rw [hq]; simp))) (hudisj u hu)
     have hag0 : Agree i.liveIn σ (undefAll i.undefined σ') := hag.undefAll i.undefined hunb
     simp only [eraseS] at h
-    obtain ⟨⟨m, σ₁', hx, hout⟩, hnj, hbd⟩ := hW i c b (D ++ asgB b) σ (undefAll i.undefined σ') o σ₁ hlive0 hdecl0 hdfb
+    obtain ⟨⟨m, σ₁', hx, hout⟩, hnj, hr, hbd⟩ := hW i c b K (D ++ asgB b) σ (undefAll i.undefined σ') o σ₁ hlive0 hdecl0 hdfb
       (List.subset_append_right _ _) hjump hag0 (hb.mono (List.subset_append_left _ _)) h
     obtain ⟨m', hm'⟩ := execNB_undefs X i.undefined σ' _ _ _ (execNB_single X hx)
-    exact ⟨⟨m', σ₁', by simpa [funcS] using hm', hout⟩, fun _ => hnj, by simpa [asgS] using hbd⟩
+    exact ⟨⟨m', σ₁', by simpa [funcS] using hm', hout⟩, fun _ => hnj, by simpa [raisesS] using hr, by simpa [asgS] using hbd⟩
   | forS i x it extra b =>
     have hlive0 := hlive
     have hdecl0 := hdecl
@@ -301,7 +585,7 @@ theorem simS_step (X : Ext) (n : Nat) (hB : SimB X n) (hW : SimW X (n+1)) (hF : 
     simp only [DefS] at hdef
     simp only [retTopS] at hjump
     simp only [AStmt.info] at hag ⊢
-    obtain ⟨hvit, hvex, hOI, hbI, hlb⟩ := hlive
+    obtain ⟨hvit, hvex, hOI, hbI, hlb, hKo, hro⟩ := hlive
     obtain ⟨hDsub, hudisj, hdfb⟩ := hdef
     have hunb : ∀ u ∈ i.undefined, σ.env u = none := by
       intro u hu
@@ -319,15 +603,17 @@ theorem simS_step (X : Ext) (n : Nat) (hB : SimB X n) (hW : SimW X (n+1)) (hF : 
     -- wrap a run of the bare `forF` into the functionalised statement
     have wrap : ∀ (m : Nat) (σ₁' : TSt),
         execN X m (.forF x it extra (funcB b) i.declared) (undefAll i.undefined σ') = some (o, σ₁') →
-        AgreeOut o i.liveOut σ₁ σ₁' →
-        ∃ m σ₁', execNB X m (funcS (.forS i x it extra b)) σ' = some (o, σ₁') ∧ AgreeOut o i.liveOut σ₁ σ₁' := by
+        AgreeOutK o i.liveOut K σ₁ σ₁' →
+        ∃ m σ₁', execNB X m (funcS (.forS i x it extra b)) σ' = some (o, σ₁') ∧ AgreeOutK o i.liveOut K σ₁ σ₁' := by
       intro m σ₁' hx hout
       obtain ⟨m', hm'⟩ := execNB_undefs X i.undefined σ' _ _ _ (execNB_single X hx)
       exact ⟨m', σ₁', by simpa [funcS] using hm', hout⟩
     cases r with
     | error ex =>
       simp only [Option.some.injEq, Prod.mk.injEq] at h; obtain ⟨rfl, rfl⟩ := h
-      refine ⟨wrap 1 τ' (by simp [execN, hT]) ⟨hlog, fun hh => by cases hh⟩, fun _ => Or.inr ⟨ex, rfl⟩, ?_⟩
+      have hi : IsImpl ex := evalE_impl X it σ ex (by rw [he])
+      refine ⟨wrap 1 τ' (by simp [execN, hT]) ⟨hlog, (fun hh => by cases hh), agree_err hag1 hKo hi⟩, fun _ => Or.inr ⟨ex, rfl⟩,
+        raisedIn_impl hi _, ?_⟩
       simpa [asgS] using hb1
     | ok v =>
       simp only at h
@@ -335,7 +621,9 @@ theorem simS_step (X : Ext) (n : Nat) (hB : SimB X n) (hW : SimW X (n+1)) (hF : 
       | error ex =>
         rw [hi] at h
         simp only [Option.some.injEq, Prod.mk.injEq] at h; obtain ⟨rfl, rfl⟩ := h
-        refine ⟨wrap 1 τ' (by simp [execN, hT, hi]) ⟨hlog, fun hh => by cases hh⟩, fun _ => Or.inr ⟨ex, rfl⟩, ?_⟩
+        have hii : IsImpl ex := iterItems_impl hi
+        refine ⟨wrap 1 τ' (by simp [execN, hT, hi]) ⟨hlog, (fun hh => by cases hh), agree_err hag1 hKo hii⟩,
+          fun _ => Or.inr ⟨ex, rfl⟩, raisedIn_impl hii _, ?_⟩
         simpa [asgS] using hb1
       | ok items =>
         rw [hi] at h
@@ -343,9 +631,9 @@ theorem simS_step (X : Ext) (n : Nat) (hB : SimB X n) (hW : SimW X (n+1)) (hF : 
         cases extra with
         | none =>
           simp only at h
-          obtain ⟨⟨m, σ₁', hx, hout⟩, hnj, hbd⟩ := hF i x it none b (D ++ (x :: asgB b)) items τ τ' o σ₁ hlive0 hdecl0 hdfb
+          obtain ⟨⟨m, σ₁', hx, hout⟩, hnj, hr, hbd⟩ := hF i x it none b K (D ++ (x :: asgB b)) items τ τ' o σ₁ hlive0 hdecl0 hdfb
             (List.subset_append_right _ _) hjump hag1 hb1 h
-          refine ⟨wrap (m+1) σ₁' (by simp only [execN, hT, hi]; exact hx) hout, fun _ => hnj, ?_⟩
+          refine ⟨wrap (m+1) σ₁' (by simp only [execN, hT, hi]; exact hx) hout, fun _ => hnj, by simpa [raisesS] using hr, ?_⟩
           simpa [asgS] using hbd
         | some t =>
           simp only at h
@@ -357,30 +645,102 @@ theorem simS_step (X : Ext) (n : Nat) (hB : SimB X n) (hW : SimW X (n+1)) (hF : 
           cases rt with
           | error ex =>
             simp only [Option.some.injEq, Prod.mk.injEq] at h; obtain ⟨rfl, rfl⟩ := h
-            refine ⟨wrap 1 τ₂' (by simp [execN, hT, hi, hT2]) ⟨hlog2, fun hh => by cases hh⟩, fun _ => Or.inr ⟨ex, rfl⟩, ?_⟩
+            have hie : IsImpl ex := evalE_impl X t τ ex (by rw [het])
+            refine ⟨wrap 1 τ₂' (by simp [execN, hT, hi, hT2]) ⟨hlog2, (fun hh => by cases hh), agree_err hag2 hKo hie⟩,
+              fun _ => Or.inr ⟨ex, rfl⟩, raisedIn_impl hie _, ?_⟩
             simpa [asgS] using hb2
           | ok tv =>
             simp only at h
             by_cases htv : truthy tv = true
             · rw [if_pos htv] at h
-              obtain ⟨⟨m, σ₁', hx, hout⟩, hnj, hbd⟩ := hF i x it (some t) b (D ++ (x :: asgB b)) items τ₂ τ₂' o σ₁ hlive0 hdecl0 hdfb
+              obtain ⟨⟨m, σ₁', hx, hout⟩, hnj, hr, hbd⟩ := hF i x it (some t) b K (D ++ (x :: asgB b)) items τ₂ τ₂' o σ₁ hlive0 hdecl0 hdfb
                 (List.subset_append_right _ _) hjump hag2 hb2 h
-              refine ⟨wrap (m+1) σ₁' (by simp only [execN, hT, hi, hT2, htv, if_true]; exact hx) hout, fun _ => hnj, ?_⟩
+              refine ⟨wrap (m+1) σ₁' (by simp only [execN, hT, hi, hT2, htv, if_true]; exact hx) hout, fun _ => hnj,
+                by simpa [raisesS] using hr, ?_⟩
               simpa [asgS] using hbd
             · rw [if_neg htv] at h
               simp only [Option.some.injEq, Prod.mk.injEq] at h; obtain ⟨rfl, rfl⟩ := h
-              refine ⟨wrap 1 τ₂' (by simp [execN, hT, hi, hT2, htv]) ⟨hlog2, fun _ => hag2.mono hOI⟩, fun _ => Or.inl rfl, ?_⟩
+              refine ⟨wrap 1 τ₂' (by simp [execN, hT, hi, hT2, htv]) ⟨hlog2, fun _ => hag2.mono hOI, fun e he => by cases he⟩,
+                fun _ => Or.inl rfl, raisedIn_normal _, ?_⟩
               simpa [asgS] using hb2
-
+  | withS i tag b =>
+    simp only [LiveS] at hlive
+    simp only [DeclS] at hdecl
+    simp only [DefS] at hdef
+    simp only [retTopS] at hjump
+    simp only [AStmt.info] at hag ⊢
+    simp only [eraseS, exec] at h
+    cases hbody : execB X n (eraseB b) (σ.push (.enter tag)) with
+    | none => simp [hbody] at h
+    | some rb =>
+      obtain ⟨ob, σb⟩ := rb
+      rw [hbody] at h
+      simp only [Option.some.injEq, Prod.mk.injEq] at h; obtain ⟨rfl, rfl⟩ := h
+      obtain ⟨⟨m, τb, hx, hout⟩, hnj, hr, hbd⟩ := hB b K D i.liveOut (σ.push (.enter tag)) (σ'.push (.enter tag)) ob σb hlive.2 hdecl hdef
+        (noRet_retTopB b hjump) ((hag.mono hlive.1).push _) (hb.of_env rfl) hbody
+      have hx' : execN X (m+1) (.withT tag (funcB b)) σ' = some (ob, τb.push (.exit tag)) := by
+        simp only [execN, hx]
+      refine ⟨⟨m + 1 + 2, τb.push (.exit tag), by simpa [funcS] using execNB_single X hx', ?_, fun ho => (hout.2.1 ho).push _,
+        fun e he => (hout.2.2 e he).push _⟩, fun hh => hnj (by simpa [noRetS] using hh), by simpa [raisesS] using hr, ?_⟩
+      · simp [St.push, TSt.push, hout.1]
+      · have hbp : BoundSub (σb.push (.exit tag)) (D ++ asgB b) := hbd.of_env rfl
+        simpa [asgS] using hbp
+  | tryS i b hs f =>
+    simp only [LiveS] at hlive
+    simp only [DeclS] at hdecl
+    simp only [DefS] at hdef
+    simp only [retTopS, Bool.and_eq_true] at hjump
+    simp only [AStmt.info] at hag ⊢
+    obtain ⟨hlf, hlh, hlb, hbI⟩ := hlive
+    obtain ⟨hdb, hdh, hdf⟩ := hdecl
+    obtain ⟨hfb, hfh, hff⟩ := hdef
+    simp only [eraseS] at h
+    rw [exec_tryS] at h
+    cases hbody : execB X n (eraseB b) σ with
+    | none => simp [hbody] at h
+    | some rb =>
+      obtain ⟨ob, σb⟩ := rb
+      rw [hbody] at h
+      simp only [Option.bind_some] at h
+      obtain ⟨⟨m1, τb, hx1, hout1⟩, hnj1, hr1, hbd1⟩ := hB b _ D _ σ σ' ob σb hlb hdb hfb (noRet_retTopB b hjump.1.1)
+        (hag.mono hbI) hb hbody
+      cases ha : afterHS X n (eraseH hs) (ob, σb) with
+      | none => simp [ha] at h
+      | some ra =>
+        rw [ha] at h
+        simp only [Option.bind_some] at h
+        obtain ⟨m2, τ2, hx2, hlog2, hagN, hagX, hnj2, hr2, hbd2⟩ := handler_step X n hB hs _ _ (D ++ asgB b) ob σb τb ra hlh hdh hfh hjump.1.2
+          (hnj1 hjump.1.1) hout1 hbd1 ha
+        obtain ⟨o2, σ2⟩ := ra
+        obtain ⟨m3, τ3, hx3, hout3, hnj3, hr3, hbd3⟩ := finally_step X n hB f K i.liveOut (D ++ asgB b ++ asgH hs) o2 σ2 τ2 (o, σ₁)
+          hlf hdf hff hjump.2 hagN hagX hnj2 hbd2 h
+        have hM1 : m1 ≤ max m1 (max m2 m3) := Nat.le_max_left _ _
+        have hM2 : m2 ≤ max m1 (max m2 m3) := Nat.le_trans (Nat.le_max_left _ _) (Nat.le_max_right _ _)
+        have hM3 : m3 ≤ max m1 (max m2 m3) := Nat.le_trans (Nat.le_max_right _ _) (Nat.le_max_right _ _)
+        have hx' : execN X (max m1 (max m2 m3) + 1) (.tryT (funcB b) (funcH hs) (funcB f)) σ' = some (o, τ3) := by
+          rw [execN_try, execNB_mono X hx1 hM1]
+          simp only [Option.bind_some]
+          rw [afterHN_mono X hM2 hx2]
+          simp only [Option.bind_some]
+          exact finishN_mono X hM3 hx3
+        refine ⟨⟨_, τ3, by simpa [funcS] using execNB_single X hx', hout3⟩, fun _ => hnj3, fun t ht => ?_, ?_⟩
+        · simp only [raisesS]
+          rcases hr3 t ht with h3 | h3
+          · rcases hr2 t h3 with h2 | h2
+            · exact List.mem_append.mpr (Or.inl (hr1 t h2))
+            · exact List.mem_append.mpr (Or.inr (List.mem_append.mpr (Or.inl h2)))
+          · exact List.mem_append.mpr (Or.inr (List.mem_append.mpr (Or.inr h3)))
+        · simpa [asgS, List.append_assoc] using hbd3
 
 /-! ### Blocks -/
 theorem simB_step (X : Ext) (n : Nat) (hS : SimS X n) (hB : SimB X n) : SimB X (n+1) := by
-  intro b D O σ σ' o σ₁ hlive hdecl hdef hjump hag hb h
+  intro b K D O σ σ' o σ₁ hlive hdecl hdef hjump hag hb h
   cases b with
   | nil =>
     simp only [eraseB, execB, Option.some.injEq, Prod.mk.injEq] at h; obtain ⟨rfl, rfl⟩ := h
     simp only [blockIn] at hag
-    refine ⟨⟨1, σ', by simp [funcB, execNB], hag.2, fun _ => hag⟩, fun _ => Or.inl rfl, ?_⟩
+    refine ⟨⟨1, σ', by simp [funcB, execNB], hag.2, fun _ => hag, fun e he => by cases he⟩, fun _ => Or.inl rfl,
+      raisedIn_normal _, ?_⟩
     exact hb.mono (List.subset_append_left _ _)
   | cons s rest =>
     simp only [LiveB] at hlive
@@ -394,28 +754,30 @@ theorem simB_step (X : Ext) (n : Nat) (hS : SimS X n) (hB : SimB X n) : SimB X (
     | some rs =>
       rw [hs] at h
       obtain ⟨o₁, σ₂⟩ := rs
-      obtain ⟨⟨m₁, σ₂', hx₁, hout₁⟩, hnj₁, hbd₁⟩ := hS s D σ σ' o₁ σ₂ hlive.1 hdecl.1 hdef.1 hjump.1 hag hb hs
+      obtain ⟨⟨m₁, σ₂', hx₁, hout₁⟩, hnj₁, hr₁, hbd₁⟩ := hS s K D σ σ' o₁ σ₂ hlive.1 hdecl.1 hdef.1 hjump.1 hag hb hs
       by_cases ho : o₁ = .normal
       · subst ho
         simp only at h
-        have hag₂ : Agree (blockIn rest O) σ₂ σ₂' := (hout₁.2 rfl).mono hlive.2.1
-        obtain ⟨⟨m₂, σ₁', hx₂, hout₂⟩, hnj₂, hbd₂⟩ := hB rest (D ++ asgS s) O σ₂ σ₂' o σ₁ hlive.2.2 hdecl.2 hdef.2 hjump.2 hag₂ hbd₁ h
-        refine ⟨⟨m₁ + m₂, σ₁', ?_, hout₂⟩, ?_, ?_⟩
+        have hag₂ : Agree (blockIn rest O) σ₂ σ₂' := (hout₁.2.1 rfl).mono hlive.2.1
+        obtain ⟨⟨m₂, σ₁', hx₂, hout₂⟩, hnj₂, hr₂, hbd₂⟩ := hB rest K (D ++ asgS s) O σ₂ σ₂' o σ₁ hlive.2.2 hdecl.2 hdef.2 hjump.2 hag₂ hbd₁ h
+        refine ⟨⟨m₁ + m₂, σ₁', ?_, hout₂⟩, ?_, ?_, ?_⟩
         · simp only [funcB]
           exact execNB_append_normal X _ _ _ _ _ _ _ hx₁ hx₂
         · intro hnr
           simp only [noRetB, Bool.and_eq_true] at hnr
           exact hnj₂ hnr.2
+        · simp only [raisesB]; exact hr₂.mono (List.subset_append_right _ _)
         · simpa [asgB, List.append_assoc] using hbd₂
       · have hres : o = o₁ ∧ σ₁ = σ₂ := by
           cases o₁ <;> simp_all
         obtain ⟨rfl, rfl⟩ := hres
-        refine ⟨⟨m₁, σ₂', ?_, hout₁.1, fun hh => absurd hh ho⟩, ?_, ?_⟩
+        refine ⟨⟨m₁, σ₂', ?_, hout₁.1, fun hh => absurd hh ho, hout₁.2.2⟩, ?_, ?_, ?_⟩
         · simp only [funcB]
           exact execNB_append_stop X _ _ _ _ _ _ hx₁ ho
         · intro hnr
           simp only [noRetB, Bool.and_eq_true] at hnr
           exact hnj₁ hnr.1
+        · simp only [raisesB]; exact hr₁.mono (List.subset_append_left _ _)
         · exact hbd₁.mono (by
             intro y hy; simp only [asgB]
             rcases List.mem_append.mp hy with hy | hy
@@ -424,12 +786,12 @@ theorem simB_step (X : Ext) (n : Nat) (hS : SimS X n) (hB : SimB X n) : SimB X (
 
 /-! ### The iterations of a `while` -/
 theorem simW_step (X : Ext) (n : Nat) (hB : SimB X n) (hW : SimW X n) : SimW X (n+1) := by
-  intro i c b D σ σ' o σ₁ hlive hdecl hdef hsub hnr hag hb h
+  intro i c b K D σ σ' o σ₁ hlive hdecl hdef hsub hnr hag hb h
   have hlive0 := hlive
   have hdecl0 := hdecl
   simp only [LiveS] at hlive
   simp only [DeclS] at hdecl
-  obtain ⟨hvc, hbI, hOI, hlb⟩ := hlive
+  obtain ⟨hvc, hbI, hOI, hlb, hKo, hro⟩ := hlive
   obtain ⟨hdd, hund, hdb⟩ := hdecl
   simp only [exec] at h
   rcases he : evalE X c σ with ⟨r, τ⟩
@@ -440,13 +802,16 @@ theorem simW_step (X : Ext) (n : Nat) (hB : SimB X n) (hW : SimW X n) : SimW X (
   cases r with
   | error ex =>
     simp only [Option.some.injEq, Prod.mk.injEq] at h; obtain ⟨rfl, rfl⟩ := h
-    exact ⟨⟨1, τ', by simp [execN, hT], hlog, fun hh => by cases hh⟩, Or.inr ⟨ex, rfl⟩, hb1⟩
+    have hi : IsImpl ex := evalE_impl X c σ ex (by rw [he])
+    exact ⟨⟨1, τ', by simp [execN, hT], hlog, (fun hh => by cases hh), agree_err hag1 hKo hi⟩, Or.inr ⟨ex, rfl⟩,
+      raisedIn_impl hi _, hb1⟩
   | ok v =>
     simp only at h
     by_cases hv : (!truthy v) = true
     · rw [if_pos hv] at h
       simp only [Option.some.injEq, Prod.mk.injEq] at h; obtain ⟨rfl, rfl⟩ := h
-      exact ⟨⟨1, τ', by simp [execN, hT, hv], hlog, fun _ => hag1.mono hOI⟩, Or.inl rfl, hb1⟩
+      exact ⟨⟨1, τ', by simp [execN, hT, hv], hlog, fun _ => hag1.mono hOI, fun e he => by cases he⟩, Or.inl rfl,
+        raisedIn_normal _, hb1⟩
     · rw [if_neg hv] at h
       cases hbody : execB X n (eraseB b) τ with
       | none => simp [hbody] at h
@@ -454,9 +819,10 @@ theorem simW_step (X : Ext) (n : Nat) (hB : SimB X n) (hW : SimW X n) : SimW X (
         rw [hbody] at h
         obtain ⟨o₁, σ₂⟩ := rb
         have hloc := locals_dead (i := i) (body := b) (fun _ hx => hx) hdd hdb
-        obtain ⟨⟨m₁, σ₂', hx₁, hout₁⟩, hnj₁, hbd₁⟩ := body_call X n hB b i.liveIn i.liveIn D
+        obtain ⟨⟨m₁, σ₂', hx₁, hout₁⟩, hnj₁, hr₁, hbd₁⟩ := body_call X n hB b K i.liveIn i.liveIn D
           (localsOf (funcB b) i.declared) τ τ' o₁ σ₂ hlb hdb hdef hnr hag1 hbI
-          (fun x hx hin => (hloc x hx).1 (hbI hin)) (fun x hx => (hloc x hx).1) hb1 hbody
+          (fun x hx hin => (hloc x hx).1 (hbI hin)) (fun x hx => (hloc x hx).1)
+          (fun o' hr' => locals_exc hloc hKo hro hr') hb1 hbody
         have hb2 : BoundSub σ₂ D := hbd₁.mono (by
           intro y hy
           rcases List.mem_append.mp hy with hy | hy
@@ -464,8 +830,8 @@ theorem simW_step (X : Ext) (n : Nat) (hB : SimB X n) (hW : SimW X n) : SimW X (
           · exact hsub hy)
         rcases hnj₁ with rfl | ⟨ex, rfl⟩
         · simp only at h
-          obtain ⟨⟨m₂, σ₁', hx₂, hout₂⟩, hnj₂, hbd₂⟩ := hW i c b D σ₂ σ₂' o σ₁ hlive0 hdecl0 hdef hsub hnr (hout₁.2 rfl) hb2 h
-          refine ⟨⟨max m₁ m₂ + 1, σ₁', ?_, hout₂⟩, hnj₂, hbd₂⟩
+          obtain ⟨⟨m₂, σ₁', hx₂, hout₂⟩, hnj₂, hr₂, hbd₂⟩ := hW i c b K D σ₂ σ₂' o σ₁ hlive0 hdecl0 hdef hsub hnr (hout₁.2.1 rfl) hb2 h
+          refine ⟨⟨max m₁ m₂ + 1, σ₁', ?_, hout₂⟩, hnj₂, hr₂, hbd₂⟩
           simp only [execN, hT, hv]
           have hx₁' := withFrame_mono (B := execNB X (max m₁ m₂) (funcB b) (mask (localsOf (funcB b) i.declared) τ'))
             (fun r hr => execNB_mono X hr (Nat.le_max_left m₁ m₂)) hx₁
@@ -473,24 +839,24 @@ theorem simW_step (X : Ext) (n : Nat) (hB : SimB X n) (hW : SimW X n) : SimW X (
           rw [hx₁']
           exact execN_mono X hx₂ (Nat.le_max_right m₁ m₂)
         · simp only [Option.some.injEq, Prod.mk.injEq] at h; obtain ⟨rfl, rfl⟩ := h
-          refine ⟨⟨m₁ + 1, σ₂', ?_, hout₁.1, fun hh => by cases hh⟩, Or.inr ⟨ex, rfl⟩, hb2⟩
+          refine ⟨⟨m₁ + 1, σ₂', ?_, hout₁.1, (fun hh => by cases hh), hout₁.2.2⟩, Or.inr ⟨ex, rfl⟩, hr₁, hb2⟩
           simp only [execN, hT, hv]
           simp only [Bool.false_eq_true, if_false]
           rw [hx₁]
 
 /-! ### The iterations of a `for` -/
 theorem simFor_step (X : Ext) (n : Nat) (hB : SimB X n) (hF : SimFor X n) : SimFor X (n+1) := by
-  intro i x it extra b D items σ σ' o σ₁ hlive hdecl hdef hsub hnr hag hb h
+  intro i x it extra b K D items σ σ' o σ₁ hlive hdecl hdef hsub hnr hag hb h
   have hlive0 := hlive
   have hdecl0 := hdecl
   simp only [LiveS] at hlive
   simp only [DeclS] at hdecl
-  obtain ⟨hvit, hvex, hOI, hbI, hlb⟩ := hlive
+  obtain ⟨hvit, hvex, hOI, hbI, hlb, hKo, hro⟩ := hlive
   obtain ⟨hdd, hund, hdb⟩ := hdecl
   cases items with
   | nil =>
     simp only [execFor, Option.some.injEq, Prod.mk.injEq] at h; obtain ⟨rfl, rfl⟩ := h
-    exact ⟨⟨1, σ', by simp [execNFor], hag.2, fun _ => hag.mono hOI⟩, Or.inl rfl, hb⟩
+    exact ⟨⟨1, σ', by simp [execNFor], hag.2, fun _ => hag.mono hOI, fun e he => by cases he⟩, Or.inl rfl, raisedIn_normal _, hb⟩
   | cons v items =>
     simp only [execFor] at h
     cases hbody : execB X n (eraseB b) (σ.set x v) with
@@ -505,10 +871,11 @@ theorem simFor_step (X : Ext) (n : Nat) (hB : SimB X n) (hF : SimFor X n) : SimF
         have hm : Agree i.liveIn σ (mask L σ') := hag.mask L (fun y hy => (hloc y hy).1)
         exact hm.set x v (fun y hy hyx => hbI (List.mem_filter.mpr ⟨hy, by simpa using hyx⟩))
       have hbs : BoundSub (σ.set x v) D := hb.set x v (fun _ h => h) (hsub (List.mem_cons_self ..))
-      obtain ⟨⟨m₁, τ, hx₁, hout₁⟩, hnj₁, hbd₁⟩ := hB b D i.liveIn (σ.set x v) ((mask L σ').set x v) o₁ σ₂ hlb hdb hdef
+      obtain ⟨⟨m₁, τ, hx₁, hout₁⟩, hnj₁, hr₁, hbd₁⟩ := hB b K D i.liveIn (σ.set x v) ((mask L σ').set x v) o₁ σ₂ hlb hdb hdef
         (noRet_retTopB b hnr) hagm hbs hbody
       have hnj₁' := hnj₁ hnr
-      obtain ⟨hw, hout₁'⟩ := frame_out (σ' := σ') (L := L) hout₁ (fun y hy => (hloc y hy).1) hnj₁'
+      obtain ⟨hw, hout₁'⟩ := frame_outK (σ' := σ') (L := L) hout₁ (fun y hy => (hloc y hy).1)
+        (locals_exc hloc hKo hro hr₁) hnj₁'
       have hb2 : BoundSub σ₂ D := hbd₁.mono (by
         intro y hy
         rcases List.mem_append.mp hy with hy | hy
@@ -524,13 +891,13 @@ theorem simFor_step (X : Ext) (n : Nat) (hB : SimB X n) (hF : SimFor X n) : SimF
           exact execNB_mono X hx₁ hk
         rw [this]; exact hw
       rcases hnj₁' with rfl | ⟨ex, rfl⟩
-      · have hag2 : Agree i.liveIn σ₂ (restore L σ' τ) := hout₁'.2 rfl
+      · have hag2 : Agree i.liveIn σ₂ (restore L σ' τ) := hout₁'.2.1 rfl
         simp only [BEq.rfl, Bool.true_or, if_true] at h
         cases extra with
         | none =>
           simp only at h
-          obtain ⟨⟨m₂, σ₁', hx₂, hout₂⟩, hnj₂, hbd₂⟩ := hF i x it none b D items σ₂ (restore L σ' τ) o σ₁ hlive0 hdecl0 hdef hsub hnr hag2 hb2 h
-          refine ⟨⟨max m₁ m₂ + 1 + 1, σ₁', ?_, hout₂⟩, hnj₂, hbd₂⟩
+          obtain ⟨⟨m₂, σ₁', hx₂, hout₂⟩, hnj₂, hr₂, hbd₂⟩ := hF i x it none b K D items σ₂ (restore L σ' τ) o σ₁ hlive0 hdecl0 hdef hsub hnr hag2 hb2 h
+          refine ⟨⟨max m₁ m₂ + 1 + 1, σ₁', ?_, hout₂⟩, hnj₂, hr₂, hbd₂⟩
           simp only [execNFor]
           rw [hcall (max m₁ m₂) (Nat.le_max_left _ _)]
           exact execNFor_mono X hx₂ (by have := Nat.le_max_right m₁ m₂; omega)
@@ -544,7 +911,9 @@ theorem simFor_step (X : Ext) (n : Nat) (hB : SimB X n) (hF : SimFor X n) : SimF
           cases rt with
           | error ex =>
             simp only [Option.some.injEq, Prod.mk.injEq] at h; obtain ⟨rfl, rfl⟩ := h
-            refine ⟨⟨m₁ + 1 + 1, τ₂', ?_, hlog2, fun hh => by cases hh⟩, Or.inr ⟨ex, rfl⟩, hb3⟩
+            have hie : IsImpl ex := evalE_impl X t σ₂ ex (by rw [het])
+            refine ⟨⟨m₁ + 1 + 1, τ₂', ?_, hlog2, (fun hh => by cases hh), agree_err hag3 hKo hie⟩, Or.inr ⟨ex, rfl⟩,
+              raisedIn_impl hie _, hb3⟩
             simp only [execNFor]
             rw [hcall m₁ (Nat.le_refl _)]
             simp [hT2]
@@ -552,22 +921,23 @@ theorem simFor_step (X : Ext) (n : Nat) (hB : SimB X n) (hF : SimFor X n) : SimF
             simp only at h
             by_cases htv : truthy tv = true
             · rw [if_pos htv] at h
-              obtain ⟨⟨m₂, σ₁', hx₂, hout₂⟩, hnj₂, hbd₂⟩ := hF i x it (some t) b D items τ₂ τ₂' o σ₁ hlive0 hdecl0 hdef hsub hnr hag3 hb3 h
-              refine ⟨⟨max m₁ m₂ + 1 + 1, σ₁', ?_, hout₂⟩, hnj₂, hbd₂⟩
+              obtain ⟨⟨m₂, σ₁', hx₂, hout₂⟩, hnj₂, hr₂, hbd₂⟩ := hF i x it (some t) b K D items τ₂ τ₂' o σ₁ hlive0 hdecl0 hdef hsub hnr hag3 hb3 h
+              refine ⟨⟨max m₁ m₂ + 1 + 1, σ₁', ?_, hout₂⟩, hnj₂, hr₂, hbd₂⟩
               simp only [execNFor]
               rw [hcall (max m₁ m₂) (Nat.le_max_left _ _)]
               simp only [hT2, htv, if_true]
               exact execNFor_mono X hx₂ (by have := Nat.le_max_right m₁ m₂; omega)
             · rw [if_neg htv] at h
               simp only [Option.some.injEq, Prod.mk.injEq] at h; obtain ⟨rfl, rfl⟩ := h
-              refine ⟨⟨m₁ + 1 + 1, τ₂', ?_, hlog2, fun _ => hag3.mono hOI⟩, Or.inl rfl, hb3⟩
+              refine ⟨⟨m₁ + 1 + 1, τ₂', ?_, hlog2, fun _ => hag3.mono hOI, fun e he => by cases he⟩, Or.inl rfl,
+                raisedIn_normal _, hb3⟩
               simp only [execNFor]
               rw [hcall m₁ (Nat.le_refl _)]
               simp [hT2, htv]
       · simp only [show (Out.exc ex == Out.normal) = false from rfl, show (Out.exc ex == Out.cont) = false from rfl,
           Bool.or_self, Bool.false_eq_true, if_false, Option.some.injEq, Prod.mk.injEq] at h
         obtain ⟨rfl, rfl⟩ := h
-        refine ⟨⟨m₁ + 1 + 1, restore L σ' τ, ?_, hout₁'.1, fun hh => by cases hh⟩, Or.inr ⟨ex, rfl⟩, hb2⟩
+        refine ⟨⟨m₁ + 1 + 1, restore L σ' τ, ?_, hout₁'.1, (fun hh => by cases hh), hout₁'.2.2⟩, Or.inr ⟨ex, rfl⟩, hr₁, hb2⟩
         simp only [execNFor]
         rw [hcall m₁ (Nat.le_refl _)]
 
@@ -577,10 +947,10 @@ theorem sim_all (X : Ext) : ∀ n, SimS X n ∧ SimB X n ∧ SimW X n ∧ SimFor
   induction n with
   | zero =>
     refine ⟨?_, ?_, ?_, ?_⟩
-    · intro s D σ σ' o σ₁ _ _ _ _ _ _ h; simp [exec] at h
-    · intro b D O σ σ' o σ₁ _ _ _ _ _ _ h; simp [execB] at h
-    · intro i c b D σ σ' o σ₁ _ _ _ _ _ _ _ h; simp [exec] at h
-    · intro i x it extra b D items σ σ' o σ₁ _ _ _ _ _ _ _ h; simp [execFor] at h
+    · intro s K D σ σ' o σ₁ _ _ _ _ _ _ h; simp [exec] at h
+    · intro b K D O σ σ' o σ₁ _ _ _ _ _ _ h; simp [execB] at h
+    · intro i c b K D σ σ' o σ₁ _ _ _ _ _ _ _ h; simp [exec] at h
+    · intro i x it extra b K D items σ σ' o σ₁ _ _ _ _ _ _ _ h; simp [execFor] at h
   | succ n ih =>
     obtain ⟨hS, hB, hW, hF⟩ := ih
     have hW1 := simW_step X n hB hW
@@ -598,16 +968,16 @@ theorem agree_ofSt (L : List Name) (σ : St) : Agree L σ (TSt.ofSt σ) := by
 
 /-- Source-side facts that come out of the simulation: a block without `return` ends normally or with an
 exception, and only assigned variables become bound. -/
-theorem src_facts_B (X : Ext) (n : Nat) (b : ABlock) (D O : List Name) (σ : St) (o : Out) (σ₁ : St)
-    (hl : LiveB b O) (hd : DeclB b) (hf : DefB D b) (hj : retTopB b = true) (hb : BoundSub σ D)
+theorem src_facts_B (X : Ext) (n : Nat) (b : ABlock) (K : ExcCtx) (D O : List Name) (σ : St) (o : Out) (σ₁ : St)
+    (hl : LiveB K b O) (hd : DeclB b) (hf : DefB D b) (hj : retTopB b = true) (hb : BoundSub σ D)
     (h : execB X n (eraseB b) σ = some (o, σ₁)) : (noRetB b = true → NJ o) ∧ BoundSub σ₁ (D ++ asgB b) := by
-  obtain ⟨_, h1, h2⟩ := (sim_all X n).2.1 b D O σ (TSt.ofSt σ) o σ₁ hl hd hf hj (agree_ofSt _ σ) hb h
+  obtain ⟨_, h1, _, h2⟩ := (sim_all X n).2.1 b K D O σ (TSt.ofSt σ) o σ₁ hl hd hf hj (agree_ofSt _ σ) hb h
   exact ⟨h1, h2⟩
 
-theorem src_facts_S (X : Ext) (n : Nat) (s : AStmt) (D : List Name) (σ : St) (o : Out) (σ₁ : St)
-    (hl : LiveS s) (hd : DeclS s) (hf : DefS D s) (hj : retTopS s = true) (hb : BoundSub σ D)
+theorem src_facts_S (X : Ext) (n : Nat) (s : AStmt) (K : ExcCtx) (D : List Name) (σ : St) (o : Out) (σ₁ : St)
+    (hl : LiveS K s) (hd : DeclS s) (hf : DefS D s) (hj : retTopS s = true) (hb : BoundSub σ D)
     (h : exec X n (eraseS s) σ = some (o, σ₁)) : (noRetS s = true → NJ o) ∧ BoundSub σ₁ (D ++ asgS s) := by
-  obtain ⟨_, h1, h2⟩ := (sim_all X n).1 s D σ (TSt.ofSt σ) o σ₁ hl hd hf hj (agree_ofSt _ σ) hb h
+  obtain ⟨_, h1, _, h2⟩ := (sim_all X n).1 s K D σ (TSt.ofSt σ) o σ₁ hl hd hf hj (agree_ofSt _ σ) hb h
   exact ⟨h1, h2⟩
 
 end Malt.Func
